@@ -626,6 +626,15 @@ fn cli_outputs(bin: &std::path::Path, case: &Case, text: &str, slack: f64, rf: &
         args.push("--load_matching".into());
     }
     let (pj, px, pt) = (dir.join("o.json"), dir.join("o.xml"), dir.join("o.txt"));
+    // the output paths may exist already, holding a longer document of an earlier run (fixed file names reused for a
+    // big building and then a small one): what is written must replace it, not overlay its beginning
+    if crate::spec::fnv(text.as_bytes()) % 2 == 0 {
+        let filler = "<resto de un documento anterior> {\"x\": [1, 2, 3]} ".repeat((text.len() * 40 + (1 << 20)) / 48);
+        for p in [&pj, &px, &pt] {
+            let _ = std::fs::write(p, &filler);
+        }
+        t.count("cli_runs_over_existing_longer_output_files");
+    }
     for (o, p) in [("--json", &pj), ("--xml", &px), ("--txt", &pt)] {
         args.push(o.into());
         args.push(p.display().to_string());
@@ -734,6 +743,18 @@ pub fn run(ctx: &Ctx) -> Report {
     let cli_every = if ctx.thorough() { 120 } else { 60 };
     let thorough = ctx.thorough();
     let tally = run_sharded(ctx, total, |idx, r, t| {
+        if idx == 1 && ctx.cli_debug.is_some() {
+            // one hourly year through the program: its documents are several MiB long (a size-dependent loss - a
+            // truncated or partly written file - shows only there)
+            let mut o = GenOpts::default();
+            o.steps = Some(8760);
+            o.demands = Tri::Always;
+            o.cogen = Tri::Always;
+            let big = gen_case(r, &o, 30);
+            check_case(ctx, &big, idx, true, t);
+            t.count("hourly_year_through_the_program");
+            return;
+        }
         let case = gen_output_case(r, thorough);
         check_case(ctx, &case, idx, idx % cli_every == 0, t);
     });
@@ -750,6 +771,8 @@ pub fn run(ctx: &Ctx) -> Report {
     ];
     if ctx.cli_debug.is_some() {
         quotas.push(("cli_output_sets_checked".to_string(), tally.get("cli_output_sets_checked"), 30));
+        quotas.push(("cli_runs_over_existing_longer_output_files".to_string(), tally.get("cli_runs_over_existing_longer_output_files"), 10));
+        quotas.push(("hourly_year_through_the_program".to_string(), tally.get("hourly_year_through_the_program"), 1));
     }
     Report {
         tally,
